@@ -1169,7 +1169,7 @@ fn emit_calls(seed: u64, tier: Tier, unit: u64, sink: &mut dyn FnMut(Plan) -> bo
         0..=3 => {
             // day-count arithmetic: all 256 values of the 8-bit parameter
             let cal = gen_cal_choice(r);
-            let date = r.i64_in(3653, 80000) * 86_400;
+            let date = r.i64_in(0, ymd_day(2200, 12, 31)) * 86_400;
             let func = match which {
                 0 => DateFn::AddDays,
                 1 => DateFn::AddBusDays,
@@ -1199,17 +1199,29 @@ fn emit_calls(seed: u64, tier: Tier, unit: u64, sink: &mut dyn FnMut(Plan) -> bo
         4 | 5 => {
             // month arithmetic: offsets landing in 1970..2200, every roll kind and day 1..31
             let cal = gen_cal_choice(r);
-            let day = r.i64_in(3653, 80000);
+            let day = r.i64_in(0, ymd_day(2200, 12, 31));
             let date = day * 86_400;
-            let year = ts_to_ndt(date).format("%Y").to_string().parse::<i32>().unwrap();
-            let lo = (1971 - year) * 12;
-            let hi = (2199 - year) * 12;
+            let nd = ts_to_ndt(date);
+            let year = nd.format("%Y").to_string().parse::<i32>().unwrap();
+            let month = nd.format("%m").to_string().parse::<i32>().unwrap();
+            let total = year * 12 + (month - 1);
+            let lo = 1970 * 12 - total;
+            let hi = 2200 * 12 + 11 - total;
             let mut counts: Vec<i32> = (-40..=40).filter(|m| *m >= lo && *m <= hi).collect();
             for _ in 0..40 {
                 counts.push(r.i64_in(lo as i64, hi as i64) as i32);
             }
             counts.push(lo);
             counts.push(hi);
+            // landing months where day capping depends on the leap rule, and the range ends
+            for y in [1970, 1972, 2000, 2096, 2100, 2104, 2196, 2200] {
+                counts.push(y * 12 + 1 - total); // February of y
+            }
+            for y in [1970, 2100, 2200] {
+                for m in [0, 2, 11] {
+                    counts.push(y * 12 + m - total);
+                }
+            }
             let mut rolls = vec![RollSpec::Unspecified, RollSpec::EoM, RollSpec::SoM, RollSpec::Imm];
             if which == 4 {
                 for d in 1..=31u32 {
